@@ -9,6 +9,9 @@ def Pc.bphase : Pc → Option Nat
   | .bLock j | .bHeld j | .bAsleep j | .bTimedOut j | .bUnlockRet j _ => some j
   | _ => none
 
+theorem Pc.bphase_owner {pc : Pc} {j : Nat} (h : pc.bphase = some j) : pc.owner = some j := by
+  cases pc <;> simp_all [Pc.bphase, Pc.owner]
+
 def JSt.inList : JSt → Bool
   | .fresh | .listed | .running => true
   | _ => false
@@ -16,16 +19,20 @@ def JSt.inList : JSt → Bool
 structure InvJ (s : State) : Prop where
   j_out : ∀ j, s.njobs ≤ j → s.job j = {}
   j_own : ∀ t j, (s.thr t).pc.owner = some j → j < s.njobs ∧ (s.job j).owner = t ∧ (s.job j).odone = false
-  j_try : ∀ t j, ((s.thr t).pc = .tryL j ∨ ∃ x, (s.thr t).pc = .tryC j x) →
+  j_tryL : ∀ t j, (s.thr t).pc = .tryL j →
+    (s.job j).st = .fresh ∧ (s.job j).freed = false ∧ (s.job j).ready = false ∧ (s.job j).holder = none ∧
+    ((s.job j).kind = .timed → (s.job j).oref = true)
+  j_tryC : ∀ t j x, (s.thr t).pc = .tryC j x →
     (s.job j).st = .fresh ∧ (s.job j).freed = false ∧ (s.job j).ready = false ∧ (s.job j).holder = none ∧
     ((s.job j).kind = .timed → (s.job j).oref = true)
   j_res : ∀ t j, (s.thr t).pc = .resume j → (s.job j).st = .failed ∧ (s.job j).kind = .coro
   j_b : ∀ t j, (s.thr t).pc.bphase = some j → (s.job j).kind ≠ .coro ∧ (s.job j).st ≠ .fresh ∧ (s.job j).st ≠ .failed ∧
     (s.job j).freed = false ∧ ((s.job j).kind = .timed → (s.job j).oref = true)
+  j_to : ∀ t j, (s.thr t).pc = .bTimedOut j → (s.job j).kind = .timed
   j_ret : ∀ t j b, (s.thr t).pc = .bUnlockRet j b → (s.job j).kind = .blocking → (s.job j).ready = true
   j_dec : ∀ t j b, (s.thr t).pc = .bDec j b → (s.job j).kind = .timed ∧ (s.job j).st ≠ .fresh ∧ (s.job j).st ≠ .failed ∧
     (s.job j).oref = true
-  j_rep : ∀ t j b, (s.thr t).pc = .rep j b → (s.job j).kind ≠ .coro ∧ (s.job j).oref = false
+  j_rep : ∀ t j b, (s.thr t).pc = .rep j b → (s.job j).kind ≠ .coro ∧ ((s.job j).kind = .timed → (s.job j).oref = false)
   /-- the list and the run of `SetImpl` -/
   l_head : ∀ l, s.head = some l → l.Nodup ∧ ∀ j, j ∈ l → (s.job j).st = .listed
   l_run : ∀ t js b, (s.thr t).pc = .run js b → js ≠ [] ∧ js.Nodup ∧ ∀ j, j ∈ js → (s.job j).st = .running
@@ -40,7 +47,8 @@ structure InvJ (s : State) : Prop where
   /-- the waiter's mutex -/
   m_hold : ∀ j t, (s.job j).holder = some t →
     (∃ rest, (s.thr t).pc = .run (j :: rest) true) ∨ (s.thr t).pc = .bHeld j ∨ ∃ b, (s.thr t).pc = .bUnlockRet j b
-  m_own : ∀ t j, ((s.thr t).pc = .bHeld j ∨ ∃ b, (s.thr t).pc = .bUnlockRet j b) → (s.job j).holder = some t
+  m_held : ∀ t j, (s.thr t).pc = .bHeld j → (s.job j).holder = some t
+  m_uret : ∀ t j b, (s.thr t).pc = .bUnlockRet j b → (s.job j).holder = some t
   /-- the flag -/
   y_st : ∀ j, (s.job j).ready = true → (s.job j).kind ≠ .coro ∧ ((s.job j).st = .running ∨ (s.job j).st = .called)
   y_run : ∀ j, (s.job j).ready = true → (s.job j).st = .running → (s.job j).kind = .blocking →
